@@ -6,6 +6,7 @@ import MD.Model.Config
 import MD.Model.IsoFit
 import MD.Model.Decompose
 import MD.Model.PD
+import MD.Model.Dtype
 import MD.Model.Marginal
 import MD.Model.Validate
 import MD.Model.Plot
@@ -405,6 +406,16 @@ def handle (j : Json) : Except String Json := do
     let o := match Val.outcome d with
       | .ok => "ok" | .valueError => "ValueError" | .notImplemented => "NotImplementedError" | .exception => "exception"
     pure (Json.mkObj [("outcome", .str o), ("violates", .bool (Val.violates d))])
+  | "dtype_rule" =>
+    -- the cast decisions for every dtype, and the residual z - y of whole numbers held in a dtype
+    let name (d : DType) : String := match d with
+      | .bool => "bool" | .u8 => "uint8" | .u16 => "uint16" | .u32 => "uint32" | .u64 => "uint64"
+      | .i8 => "int8" | .i16 => "int16" | .i32 => "int32" | .i64 => "int64" | .f32 => "float32" | .f64 => "float64"
+    let y ← getRat j "y"
+    let z ← getRat j "z"
+    pure (Json.mkObj (DType.all.map (fun d => (name d, Json.mkObj [("ident_casts", .bool (identCasts d)),
+      ("score_casts", .bool (scoreCasts d)),
+      ("residual", .str (toString (identResidual d y.num z.num)))]))))
   | "format_integer" =>
     let n ← getNat j "n"
     pure (Json.mkObj [("s", .str (formatInteger n))])
